@@ -6,6 +6,7 @@
 #include <signal.h>
 #include <sys/mman.h>
 #include <sys/personality.h>
+#include <time.h>
 #include <unistd.h>
 
 #include <cinttypes>
@@ -234,7 +235,8 @@ struct FixedHeap {
   __attribute__((no_sanitize("thread"), no_sanitize("coverage"))) static bool owns(const void* p) { return base && (const char*)p >= base && (const char*)p < base + kSize; }
   __attribute__((no_sanitize("thread"), no_sanitize("coverage"), noinline)) static void* grab(size_t n) {
     n = (n + 63) & ~(size_t)63;
-    if (!active || top + n > kSize) return aligned_alloc(64, n);
+    if (!active) return aligned_alloc(64, n);
+    if (top + n > kSize) { static const char msg[] = "harness: fixed heap exhausted\n"; (void)!write(2, msg, sizeof msg - 1); _exit(2); }   // (blocks from elsewhere would be misrouted on delete)
     void* p = base + top; top += n; return p;
   }
 };
@@ -343,8 +345,15 @@ inline void engine_warmup() {
   mju_user_warning = w;
 }
 
+// wall-clock budget of a shard (--budget seconds): checked between runs only (it decides how many seeds a shard gets through, never what
+// happens inside a run); out of budget = print the summary of the completed runs and exit 0
+inline double now_s() { timespec ts; clock_gettime(CLOCK_MONOTONIC, &ts); return ts.tv_sec + 1e-9 * ts.tv_nsec; }
+inline double g_t0 = now_s();
+inline bool g_budget_exit = true;     // a forked child of a driver leaves the decision to its parent
+inline bool over_budget() { auto it = g_args.opt.find("budget"); return it != g_args.opt.end() && atof(it->second.c_str()) > 0 && now_s() - g_t0 > atof(it->second.c_str()); }
 // begin/end one simulated run
 inline void run_begin(uint64_t seed, const vsim::Config& c) {
+  if (g_budget_exit && over_budget()) { g_agg.probes["stopped_by_time_budget"]++; g_agg.print(stdout); fflush(stdout); exit(0); }
   g_seed = seed; g_cfg = c;
   snprintf(g_cfg_str, sizeof g_cfg_str, "%s", cfg_string(c).c_str());
   if (g_args.have_dec) vsim::set_replay(g_args.dec.data(), g_args.dec.size());
